@@ -205,6 +205,19 @@ def serde_corpus(rng, tier):
         if v < 2**63: ops.append(f"sser i64 {-1 - v}")
     for x in range(256):
         ops.append(f"sser u8 {x}"); ops.append(f"sser i8 {x - 128}")
+    # deserialize_any (the bridge's only alloc-dependent decoding path: indefinite strings are collected or refused) and
+    # collect_str (needs alloc): the two documented bridge differences, and everything around them
+    trees = W.small_trees(rng, 60 if q else 600) + [W.rand_tree(rng, rng.randint(1, 5)) for _ in range(300 if q else 6000)]
+    for t in trees:
+        e = W.enc(t)
+        ops.append(f"sde any {e.hex()}")
+        if len(e) > 1 and rng.random() < 0.5:
+            ops.append(f"sde any {e[:rng.randrange(1, len(e))].hex()}")
+    for x in ["7f6161616262ff", "5f4101420203ff", "7fff", "5fff", "83017f6161ff02", "a17f6161ff05", "a1057f6161ff", "7f61", "7f6161", "5f41ff",
+              "827f6161ff5f4101ff", "9f7f6161ffff", "c17f6161ff", "7f4101ff", "5f6161ff", "7f62c328ff", "7f61c361a9ff"]:
+        ops.append(f"sde any {x}")
+    for v in (0, 9, 10, 255, 65536, 2**64 - 1):
+        ops.append(f"sser shown {v}")
     ops += ["sser bool 0", "sser bool 1", "sser unit -", "sser opt_u8 N", "sser opt_u8 200", "sser char 120", "sser char 1114111",
             "sser str 68656c6c6f", "sser str -", "sser tup2 258", "sser arr2 65535", "sser f32 3f800000", "sser f32 7fc00001"]
     return ops
@@ -225,6 +238,19 @@ def streams(rng, tier):
         # documented difference: without half, a half-precision item is a type error
         if "half" not in CUR[0] and " f9" in " " + op.split(" ")[2][:2] and impl.startswith("err type"):
             return "ok"
+        w = op.split(" ")
+        noalloc = "alloc" not in CUR[0] and "std" not in CUR[0]
+        hx = w[2] if len(w) > 2 else ""
+        has = lambda *bs: any(hx[i:i + 2] in bs for i in range(0, len(hx), 2))
+        if w[1] == "any":
+            # documented: without alloc the bridge refuses indefinite-length strings (type error at that item)
+            if noalloc and has("5f", "7f") and impl.startswith("err type"):
+                return "ok"
+            # documented: without half a half-precision item is a type error, wherever deserialize_any meets it
+            if "half" not in CUR[0] and has("f9") and impl.startswith("err type"):
+                return "ok"
+        if w[1] == "shown" and noalloc and impl == "err":
+            return "ok"                     # documented: collect_str needs alloc
         return "violation"
     CUR = [""]
     out = []
